@@ -8,6 +8,7 @@ from . import gens_r3 as R3
 from . import gens_r4 as R4
 from . import gens_r5 as R5
 from . import gens_r6 as R6
+from . import gens_r7 as R7
 
 ERR_KINDS_SMALL = ["ER_NO", "ER_BAD_DB_ERROR", "ER_PARSE_ERROR", "ER_NO_SUCH_TABLE", "ER_DUP_ENTRY",
                    "ER_ACCESS_DENIED_ERROR", "ER_UNKNOWN_ERROR", "ER_LOCK_DEADLOCK"]
@@ -1789,3 +1790,10 @@ gen_C10 = _plus(gen_C10, R6.c10_extra)
 gen_C11 = _plus(gen_C11, R6.c11_extra)
 gen_C18 = (lambda f: (lambda rng, tier, probe=None: f(rng, tier, probe) + R6.c18_extra(rng, tier)))(gen_C18)
 gen_C19 = (lambda f: (lambda rng, tier, probe=None: f(rng, tier, probe) + R6.c19_extra(rng, tier, probe)))(gen_C19)
+
+
+# seventh round of seeded defects
+gen_C02 = _plus(gen_C02, R7.c02_extra)
+gen_C08 = _plus(gen_C08, R7.c08_extra)
+gen_C11 = _plus(gen_C11, R7.c11_extra)
+gen_C19 = (lambda f: (lambda rng, tier, probe=None: f(rng, tier, probe) + R7.c19_extra(rng, tier, probe) + R7.c19_tls_partial(rng, tier)))(gen_C19)
